@@ -207,7 +207,13 @@ func vfKubeHistory(c *kit.Case) {
 			case 1:
 				k.vfStep("junk", "OnDelete(non-Endpoints object)", cur, func() { k.h.OnDelete(42) })
 			default:
-				k.vfStep("junk", "OnUpdate(non-Endpoints objects)", cur, func() { k.h.OnUpdate("a", &v1.Pod{}) })
+				if cur != nil && r.Bool() {
+					// only the NEW object is of a foreign type
+					k.vfStep("junk", "OnUpdate(last known state, non-Endpoints object)", cur, func() { k.h.OnUpdate(cur, &v1.Pod{}) })
+					c.Obs("kube_updates_to_foreign_object", 1)
+				} else {
+					k.vfStep("junk", "OnUpdate(non-Endpoints objects)", cur, func() { k.h.OnUpdate("a", &v1.Pod{}) })
+				}
 			}
 		}
 	}
